@@ -23,7 +23,7 @@ MOD = "pv.props.c12"
 STYLES = ["positional", "keyword", "mixed"]
 RETURNS = ["array", "tuple", "dict"]
 SITES = ["single", "repeated_swapped", "nested2", "nested3", "caller_named_like_params", "args_are_exprs",
-         "same_name_other_body", "many_outputs"]
+         "same_name_other_body", "many_outputs", "pretagged_nested"]
 
 
 def _has_call(dag):
@@ -119,7 +119,7 @@ def call_job(prog: str, style: str, ret: str, site: str) -> JobOut:
             called = {f"a{k}": v for k, v in c1.items()} | {f"b{k}": v for k, v in c2.items()}
             direct = {f"a{k}": v for k, v in d1.items()} | {f"b{k}": v for k, v in d2.items()}
         else:
-            depth = 2 if site == "nested2" else 3
+            depth = 2 if site in ("nested2", "pretagged_nested") else 3
 
             def g(*a, **kw):
                 r = call(f, dict(zip(names, a)) | kw)
@@ -129,6 +129,13 @@ def call_job(prog: str, style: str, ret: str, site: str) -> JobOut:
                 return call(g, dict(zip(names, a)) | kw)
             top = g if depth == 2 else h
             called, direct = as_dict(call(top, ins)), as_dict(f(**ins))
+            if site == "pretagged_nested":
+                # the OUTER call site already carries the inline tag (put there by hand) before tag_all_calls_to_be_inlined
+                # runs; the nested call inside its body does not
+                from pytato.tags import InlineCallTag
+                first = next(iter(called.values()))
+                tagged_call = first._container.tagged(InlineCallTag())
+                called = {k: tagged_call[v.name] for k, v in called.items()}
     except Exception as e:  # noqa: BLE001
         import traceback
         # C12: trace_call with any argument mixture must work for functions that work when called directly
@@ -188,10 +195,10 @@ def jobs(tier: str, seed: int):
     for i, P in enumerate(progs):
         for style in STYLES:
             for ret in RETURNS:
-                sites = SITES if th else [SITES[(i + STYLES.index(style) + RETURNS.index(ret)) % len(SITES)], "single",
-                                          "same_name_other_body", "many_outputs"][: 4 if (i + RETURNS.index(ret)) % 3 == 0
-                                                                                    else 3 if (i + RETURNS.index(ret)) % 2 == 0
-                                                                                    else 2]
+                si, ri = STYLES.index(style), RETURNS.index(ret)
+                specials = ["same_name_other_body", "many_outputs", "pretagged_nested"]
+                sites = SITES if th else [SITES[(i + si + ri) % len(SITES)], "single", specials[(i + si + ri) % 3]] + (
+                    [specials[(i + si + ri + 1) % 3]] if (i + ri) % 3 == 0 else [])
                 for site in dict.fromkeys(sites):
                     J.append(Job(MOD, "call_job", {"prog": P.name, "style": style, "ret": ret, "site": site},
                                  jid=f"{P.name}/{style}/{ret}/{site}", hard_timeout=900))
